@@ -49,6 +49,9 @@ void h_parinit(void) {
   in_opt.etree = in_etree; in_sh.Gstat = &in_gstat;
   in_gstat.panel_histo = (0 <= hw && hw < HC) ? in_histo + (HC - 1 - hw) : in_histo;
   g_ret = ParallelInit(in_n, in_relax, &in_opt, &in_sh);
+  /* representation invariant the PC(CAP) proof rests on when it is read for n > CAP: the per-panel counters range up to n (fan-in of an
+   * etree node / of the dummy root, panel size and negative offsets), so their type must hold every int_t value (seed C04c) */
+  __CPROVER_assert(sizeof(((pan_status_t *)0)->ukids) >= sizeof(int_t) && sizeof(((pan_status_t *)0)->size) >= sizeof(int_t) && (int_t)-1 < 0, "panel record: the counters ukids and size are as wide as int_t and signed");
   __CPROVER_assert(0, "canary: ParallelInit returns");
 #if LAYOUT
   if (in_n == CAP && in_relax[0].size == 1 && in_relax[1].size == CAP) __CPROVER_assert(0, "canary: whole matrix is one relaxed supernode");
